@@ -427,10 +427,20 @@ func registerExterns(w *World) {
 		st.setRegion("G!rdpos", arr("Int", "Int"), store(g, r, "0"))
 		gs := st.region("G!rdsrc", arr("Int", "Int"))
 		st.setRegion("G!rdsrc", arr("Int", "Int"), store(gs, r, c.args[0].T))
+		gr := st.region("G!rdrec", arr("Int", "Int"))
+		st.setRegion("G!rdrec", arr("Int", "Int"), store(gr, r, "0"))
+		st.setRegion("G!rdlast", "Int", r)
+		st.setRegion("G!rdcount", "Int", "(+ "+st.region("G!rdcount", "Int")+" 1)")
 		c.k(st, term(r, c.fn.Signature.Results().At(0).Type()))
 	})
 	w.ext("(*bufio.Reader).ReadString", bufioDoc, externReadString)
 	w.ext("path/filepath.Join", "filepath.Join: opaque string", externPure)
+	w.iext("net/http.ResponseWriter.WriteHeader", "ResponseWriter.WriteHeader(code): ghost g_http_status = code, g_http_calls += 1", func(ex *Exec, st *State, c *callCtx) {
+		ex.nilCheckTerm(st, c.args[0].T, c.site)
+		st.setRegion("G!g_http_status", "Int", c.args[1].T)
+		st.setRegion("G!g_http_calls", "Int", "(+ "+st.region("G!g_http_calls", "Int")+" 1)")
+		c.k(st, Val{K: KUnit})
+	})
 }
 
 // atoiTerms: (success condition, value) of strconv.Atoi on term s.
